@@ -491,6 +491,51 @@ fn judge_through_assembler(e: &E, l: &mut Local) {
     l.traces_validated += 2;
 }
 
+// ---- trees over typed rule arguments (negative values with a size) ---------------------------------------
+
+/// `t {x: s8}, {y: i8} => 0xa5 @ (<tree>)`16` called with concrete arguments: inside the production x and y
+/// are *sized* integers that may be negative, a class of values no literal can produce.
+fn judge_typed_tree(e: &E, vals: (i64, i64), l: &mut Local) {
+    let mut env = Env::new();
+    env.set("x", RVal::Int(Z::from(vals.0), Some(8)));
+    env.set("y", RVal::Int(Z::from(vals.1), Some(8)));
+    let expected = eval(e, &env);
+    let prog = format!("#ruledef\n{{\n    t {{x: s8}}, {{y: i8}} => 0xa5 @ ({})`16\n}}\nt {}, {}\n", e.print(false), vals.0, vals.1);
+    let want: Result<String, ()> = match &expected {
+        Err(RErr::Unspec(_)) | Err(RErr::Constraint) => {
+            l.unspecified += 1;
+            return;
+        }
+        Ok(RVal::Int(z, _)) => Ok(format!("10100101{}", bits_of(z, 16))),
+        Ok(RVal::Str(..)) => {
+            l.unspecified += 1;
+            return;
+        }
+        Ok(_) | Err(RErr::Error(_)) => Err(()),
+    };
+    l.eval();
+    l.nontrivial(&prog);
+    l.class(if want.is_ok() { "typed-arg-value" } else { "typed-arg-error" });
+    let obs = run::assemble_str(&prog, &run::Opts::default());
+    let bad = if obs.panicked.is_some() {
+        Some("panic")
+    } else {
+        match &want {
+            Ok(b) => (!(obs.success() && obs.bits == *b)).then_some("wrong value computed from sized (possibly negative) arguments"),
+            Err(()) => (!obs.failure()).then_some("ill-typed operation on arguments yields a value"),
+        }
+    };
+    if let Some(b) = bad {
+        l.violation(Violation {
+            property: ID,
+            key: format!("typed-arg:{}", b),
+            what: format!("{}: {} reference {}", b, prog.replace('\n', " / "), describe_ref(&expected)),
+            case: json!({"family": "typed-arg", "program": prog, "expected": format!("{:?}", want.as_ref().map(|b| run::bits_to_hex(b))), "observed": obs.summary()}),
+        });
+    }
+    l.traces_validated += 1;
+}
+
 fn chain(op: BinOp, depth: usize, left: bool, leaves: &[E], pick: u64) -> E {
     // single-operator chain of `depth` operators, left- or right-nested, leaves chosen by `pick`
     let n = leaves.len() as u64;
@@ -602,6 +647,18 @@ pub fn run(ctx: &Ctx) -> Report {
     }
     rep.absorb(par_run(chains.len() as u64, |i, l| judge_tree(&chains[i as usize], "chain", json!(i), l)));
 
+    // C2: trees over typed rule arguments: depth <= 1 over {x, y, 4, 8, -1}, and depth 2 with one depth-1 child
+    let lt_args = vec![E::var("x"), E::var("y"), E::int(4), E::int(8), E::int(-1)];
+    let d1_args = depth1(&lt_args);
+    let outer = vec![E::var("x"), E::int(4)];
+    let n_args = one_deep_count(d1_args.len() as u64, outer.len() as u64);
+    let pairs: [(i64, i64); 2] = [(-2, -1), (-128, 200)];
+    rep.absorb(par_run(d1_args.len() as u64 * 2, |i, l| judge_typed_tree(&d1_args[(i / 2) as usize], pairs[(i % 2) as usize], l)));
+    rep.absorb(par_run(n_args * 2, |i, l| {
+        let e = one_deep_child(&d1_args, &outer, i / 2).unwrap();
+        judge_typed_tree(&e, pairs[(i % 2) as usize], l)
+    }));
+
     // D: literal spellings and strings
     let lits = literal_cases(ctx.thorough);
     rep.absorb(par_cases(&lits, |t, l| judge_literal(t, l)));
@@ -612,6 +669,7 @@ pub fn run(ctx: &Ctx) -> Report {
         json!({"family": "depth<=1 over 23 leaves (direct and through #d / constant)", "trees": d1_full.len() + lf.len()}),
         json!({"family": "depth 2, one depth-1 child in every position, 7 leaves", "trees": nb}),
         json!({"family": "single-operator chains depth 3..6", "trees": chains.len()}),
+        json!({"family": "trees over typed (sized, possibly negative) rule arguments, depth<=2, x 2 argument pairs", "trees": d1_args.len() as u64 + n_args}),
         json!({"family": "literal spellings", "texts": lits.len()}),
         json!({"family": "string literals x 6 encodings x 3 contexts", "sources": strs.len()}),
     ];
@@ -668,6 +726,8 @@ pub fn run(ctx: &Ctx) -> Report {
     rep.require_class("literal-invalid");
     rep.require_class("string-valid");
     rep.require_class("string-invalid");
+    rep.require_class("typed-arg-value");
+    rep.require_class("typed-arg-error");
     rep
 }
 
